@@ -2,6 +2,7 @@
    harness/src/bin/glob.rs:
      D <ci> <glob> <path>*          -> ok <text> <res>* | err | panic | unsup | fuel
      S <ci> <base> <glob> <path>*   -> ok - <res>*      | err | ...
+     M <ci> <base> <incs> <excs> <names> <path>*  -> ok - <res>* | err   (lists: comma separated, "_" = empty)
      F <regex text>                 -> fp <prefix> <max_suffix_len or ->
      L <c>                          -> low <to_lowercase(c)>
    strings are dot-separated decimal code points, "-" = empty *)
@@ -36,11 +37,37 @@ let selector ci base glob paths =
     String.concat " " ("ok -" :: List.map res paths)
   | Err -> "err" | Panic -> "panic" | Unsup -> "unsup" | Fuel -> "fuel"
 
+let list_of_field f = if f = "_" then [] else List.map str_of_field (split_on ',' f)
+
+let rec compile_all ci = function
+  | [] -> Some []
+  | g :: t -> (match compile_glob ci g, compile_all ci t with
+               | Ok p, Some l -> Some (p :: l)
+               | _ -> None)
+
+let multi ci base incs excs names paths =
+  match compile_all ci incs, compile_all ci excs, compile_all ci names with
+  | Some i, Some e, Some n ->
+    let b = path_of_string base in
+    let sel0 = include_paths (include_names (sel_new b) n) i in
+    let sel = exclude_paths sel0 e in
+    let res path =
+      let pp = path_of_string path in
+      let ds = List.map path_of_string (ancestors path) in
+      sob (matches_full_path sel pp) ^ sob (matches_full_path sel0 pp) ^ ":"
+      ^ bits (List.map (matches_dir sel) ds) ^ ":" ^ bits (List.map (matches_dir sel0) ds) ^ ":"
+      ^ sob (matches_dir sel pp) ^ sob (matches_dir sel0 pp) in
+    String.concat " " ("ok -" :: List.map res paths)
+  | _ -> "err"     (* some glob Err/Unsup/...: the python side compares only when every glob is in the fragment *)
+
 let () = iter_lines (fun line ->
   match split_ws line with
   | "D" :: ci :: glob :: paths -> direct (ci = "1") (str_of_field glob) (List.map str_of_field paths)
   | "S" :: ci :: base :: glob :: paths ->
     selector (ci = "1") (str_of_field base) (str_of_field glob) (List.map str_of_field paths)
+  | "M" :: ci :: base :: incs :: excs :: names :: paths ->
+    multi (ci = "1") (str_of_field base) (list_of_field incs) (list_of_field excs) (list_of_field names)
+      (List.map str_of_field paths)
   | ["F"; t] ->
     let (p, m) = get_fixed_prefix (str_of_field t) in
     "fp " ^ field_of_str p ^ " " ^ (match m with Some k -> soi (int_of_n k) | None -> "-")
